@@ -10,6 +10,7 @@ import z3
 from cxxvc.kernel import Kernel, LoopSpec, Lemma
 from cxxvc.interp import Obj, Ptr, Loc, ArrLoc, Opt, Gap, MAX_DT, VOID
 from cxxvc import extract, models
+from cxxvc.native import NativeCheck
 from cxxvc.models import Vec
 
 TU = "src/hgraph/types/time_series/ts_delta.cpp"
@@ -1049,3 +1050,41 @@ class RecordedSeedResolver(DeltaKernel):
 
 
 KERNELS += [DeltaHasEffectTsd, RecordedSeedResolver]
+
+
+
+# ------------------------------------------------------------------ bounded stand-in: record -> replay as a whole
+#
+# The kernels above decide apply_delta / delta_has_effect per shape and the recording buffer.  Whether a recording made by
+# the record node from a real source replays to the same tick stream - through capture_delta's observability tests, the
+# dense buffer, replay_impl's scheduling and apply_delta's dispatch for every shape (lists that grow, windows below their
+# minimum size, bundles) - is exercised by running both graphs over enumerated histories.
+
+
+class RoundTripEnumeration(NativeCheck):
+    kid = "native:c20_roundtrip"
+    property_ids = ("C20",)
+    source = "native/bounded/c20_roundtrip.cpp"
+    title = "recording a source and replaying the recording gives the same ticks (cycles, deltas) and the same values"
+    bound_text = ("bounded: every history of H cycles in which each key / slot / field is touched at most once per cycle (or the "
+                  "window pushed), executed by a real source node through Out<>, recorded with dense_record_impl (tick stream + "
+                  "value text after every tick), replayed with replay_impl into a second graph and recorded again; r2 == r1 and "
+                  "v2 == v1.  Shapes: TS<Int>; TSS<Int> (2 elements: add/remove); TSD<Int,TS<Int>> (2 keys: set two values/erase); "
+                  "TSL<TS<Int>,3>; dynamic TSL<TS<Int>> (3 slots); TSB{a,b}; TSW<Int,4,3>, TSW<Int,3,1>, TSW<Int,2,2>.  quick: H=3 "
+                  "for TS/TSS/TSD/TSL/TSB (27 + 729 + 1 728 + 1 728 + 1 728 + 729), H=6 for the three windows (3 x 729); thorough: "
+                  "H=4 for TSS/TSD/TSL/TSB, H=9 for the windows, 20 000 random H=6 for TSD and dynamic TSL")
+    functions = ("record_replay_memory_impl.h: dense_record_impl / replay_impl", "record_replay_buffer.h: dense buffer",
+                 "ts_delta.cpp: capture_delta, delta_is_observable (observable_window/set/dict/list/bundle), apply_delta (all shapes)",
+                 "static_node.h: Out<> mutation API of every shape")
+
+    def runs(self, tier):
+        if tier == "thorough":
+            jobs = [([sh, "4"], {}) for sh in ("ts", "tss", "tsd", "tsl3", "tsldyn", "tsb")]
+            jobs += [([sh, "9"], {}) for sh in ("tsw43", "tsw31", "tsw22")]
+            jobs += [(["tsd", "6", "20000", "5"], {}), (["tsldyn", "6", "20000", "5"], {})]
+            return jobs
+        return [([sh, "3"], {}) for sh in ("ts", "tss", "tsd", "tsl3", "tsldyn", "tsb")] + \
+               [([sh, "6"], {}) for sh in ("tsw43", "tsw31", "tsw22")]
+
+
+NATIVE = globals().get("NATIVE", []) + [RoundTripEnumeration]
